@@ -20,7 +20,8 @@ import (
 
 type Adv struct {
 	Version int  // index into the adversary's enabled transactions of the ledger channel (0..latest-1)
-	SubOld  bool // sub-channels: oldest state instead of a random one
+	RootCur bool // target a sub-channel: the ledger channel's CURRENT state with outdated sub-channel states
+	SubOld  bool // sub-channels: oldest state instead of a random earlier one
 	Salt    int64
 }
 
@@ -97,7 +98,10 @@ func GenScenario(r *rand.Rand, c04 bool) *Scenario {
 	}
 	var open []int // sub-channels open at this point, in opening order
 	for k := 0; k < nsub; k++ {
-		s.Steps = append(s.Steps, Step{Kind: "opensub", By: r.Intn(2), Amt: amt(), Sub: k})
+		// go-perun's usage: sub-channels are proposed by participant 0 of the parent ("we don't have peer index 0"
+		// otherwise); the random draw is kept so that the rest of the scenario does not depend on this
+		_ = r.Intn(2)
+		s.Steps = append(s.Steps, Step{Kind: "opensub", By: s.Proposer, Amt: amt(), Sub: k})
 		open = append(open, k)
 		if r.Intn(3) == 0 {
 			s.Steps = append(s.Steps, pay())
@@ -141,8 +145,18 @@ func GenScenario(r *rand.Rand, c04 bool) *Scenario {
 	}
 	if c04 {
 		// the adversary registers an old state: between two steps or during an update
-		adv := &Adv{Version: r.Intn(1 << 20), SubOld: r.Intn(2) == 0, Salt: r.Int63()}
+		adv := &Adv{Version: r.Intn(1 << 20), RootCur: r.Intn(2) == 0, SubOld: r.Intn(2) == 0, Salt: r.Int63()}
 		pos := r.Intn(len(s.Steps) + 1)
+		// with sub-channels mostly after the activity in them, so that every channel of the tree has earlier states
+		lastSub := -1
+		for j, st := range s.Steps {
+			if st.Kind == "paysub" || st.Kind == "opensub" {
+				lastSub = j
+			}
+		}
+		if lastSub >= 0 && r.Intn(4) != 0 {
+			pos = lastSub + r.Intn(len(s.Steps)-lastSub+1)
+		}
 		placed := false
 		if r.Intn(2) == 0 {
 			for j := pos; j < len(s.Steps); j++ {
@@ -178,6 +192,11 @@ func GenScenario(r *rand.Rand, c04 bool) *Scenario {
 			} else {
 				s.Steps = append(s.Steps, Step{Kind: "pay", By: r.Intn(2), Amt: amt(), Accept: true})
 			}
+		}
+		if r.Intn(2) == 0 {
+			// the honest party stays away until the challenge period is over: only its watcher and its client's
+			// event handling protect it
+			s.Steps = append(s.Steps, Step{Kind: "tick", N: int(s.CD) + 1})
 		}
 		s.Settle = []int{s.Honest}
 		if r.Intn(2) == 0 {
@@ -486,28 +505,43 @@ func (r *Run) adversary(adv *Adv) {
 	if len(txs) == 0 {
 		return
 	}
-	// "any earlier fully signed state": versions 0..latest-1 (the only state if there is just one)
-	v := 0
-	if len(txs) > 1 {
-		v = adv.Version % (len(txs) - 1)
-	}
-	tx := txs[v]
+	// "any earlier fully signed state" of the ledger channel or of a sub-channel: per channel a version in
+	// 0..latest-1; with RootCur the ledger channel's current state carries outdated sub-channel states
 	rr := rand.New(rand.NewSource(adv.Salt))
-	var subs []channel.SignedState
-	for _, l := range tx.State.Locked {
-		st := m.Txs(l.ID)
-		if len(st) == 0 {
-			continue
+	pick := func(rootIdx int) (channel.Transaction, []channel.SignedState, bool) {
+		tx := txs[rootIdx]
+		outdated := rootIdx < len(txs)-1
+		var subs []channel.SignedState
+		for _, l := range tx.State.Locked {
+			st := m.Txs(l.ID)
+			if len(st) == 0 {
+				continue
+			}
+			k := 0
+			if len(st) > 1 {
+				outdated = true
+				if !adv.SubOld {
+					k = rr.Intn(len(st) - 1)
+				}
+			}
+			m.mu.Lock()
+			sp := m.params[l.ID]
+			m.mu.Unlock()
+			subs = append(subs, channel.SignedState{Params: sp, State: st[k].State, Sigs: st[k].Sigs})
 		}
-		k := 0
-		if !adv.SubOld {
-			k = rr.Intn(len(st))
-		}
-		m.mu.Lock()
-		sp := m.params[l.ID]
-		m.mu.Unlock()
-		subs = append(subs, channel.SignedState{Params: sp, State: st[k].State, Sigs: st[k].Sigs})
+		return tx, subs, outdated
 	}
+	old := 0
+	if len(txs) > 1 {
+		old = adv.Version % (len(txs) - 1)
+	}
+	tx, subs, outdated := pick(old)
+	if adv.RootCur {
+		if t2, s2, o2 := pick(len(txs) - 1); o2 {
+			tx, subs, outdated = t2, s2, o2
+		}
+	}
+	_ = outdated
 	newest := uint64(0)
 	if t, ok := h.newest(e.Root); ok {
 		newest = t.State.Version
